@@ -264,7 +264,8 @@ class C03(ArtifactCheck):
         knobs = case.get('knobs', {})
         return {'logic': case['hist']['logic'], 'engine': engine_name(case['options']),
                 'incremental': not any(o[0] == ':incremental' and o[1] == 'false' for o in case['options']),
-                'skip_knobs': any(k in knobs for k in ('sat_initial_skip_step', 'sat_skip_step_factor'))}
+                'skip_knobs': any(k in knobs for k in ('sat_initial_skip_step', 'sat_skip_step_factor')),
+                'bool_arg_uf': any(d['k'] == 'declare-fun' and 'Bool' in d['args'] for d in case['hist']['decls'])}
 
 
 class C06(ArtifactCheck):
